@@ -312,6 +312,57 @@ pub fn c10(tier: Tier) -> i32 {
         println!("  sequences of special bytes: {} sequences, {} cases, {:.1}s", specials.len(), t_sp.evals, t_sp.wall_s);
         tot.merge(t_sp);
     }
+    // enormous wrap widths (the quantifier says every width >= 1; usize::MAX is a natural "never wrap"):
+    // one line, no arithmetic overflow; calls run under catch_unwind, a panic is a violation
+    {
+        let widths = [usize::MAX, usize::MAX - 1, usize::MAX / 2 + 1, 1usize << 63, (1usize << 32) + 1];
+        let lens = [0usize, 1, 2, 5, 300];
+        let t_w = par_sweep((widths.len() * lens.len()) as u64, 1, |idx, l| {
+            let (w, n) = (widths[idx as usize % widths.len()], lens[idx as usize / widths.len()]);
+            let seq: Vec<u8> = (0..n).map(filler).collect();
+            let head: &[u8] = b"id d";
+            let owned = fasta::OwnedRecord { head: head.to_vec(), seq: seq.clone() };
+            let input: Vec<u8> = [&b">id d\n"[..], &seq[..n / 2], b"\n", &seq[n / 2..], b"\n"].concat();
+            let want = vec![(head.to_vec(), seq.clone())];
+            let run = |name: &str, f: &(dyn Fn(&mut Vec<u8>) -> std::io::Result<()> + std::panic::RefUnwindSafe), with_head: bool, l: &mut Local| {
+                l.evals += 1;
+                l.nontrivial += 1;
+                l.count("huge_width_cases", 1);
+                let res = catch_unwind(|| {
+                    let mut v = vec![];
+                    f(&mut v).map(|_| v)
+                });
+                let verdict = match res {
+                    Err(e) => Err(format!("panic: {}", crate::rdr::panic_msg(e))),
+                    Ok(Err(e)) => Err(format!("error: {}", e)),
+                    Ok(Ok(out)) => {
+                        let full: Vec<u8> = if with_head { out } else { [&b">id d\n"[..], &out[..]].concat() };
+                        parse_back_fasta(&full, &want)
+                    }
+                };
+                if let Err(e) = verdict {
+                    l.violation(Violation {
+                        property: "C10".into(),
+                        sig: format!("{}|huge-width", name),
+                        detail: format!("sequence of {} letters, width {}: {}: {}", n, w, name, e.chars().take(300).collect::<String>()),
+                        weight: n as u64,
+                        replay: json!({"kind": "writer", "entry": name, "seq_len": n, "width": w.to_string()}),
+                    });
+                }
+            };
+            run("write_wrap", &|o| fasta::write_wrap(o, b"id", Some(b"d"), &seq, w), true, l);
+            run("write_wrap_seq", &|o| fasta::write_wrap_seq(o, &seq, w), false, l);
+            run("write_wrap_seq_iter", &|o| fasta::write_wrap_seq_iter(o, [&seq[..n / 2], &seq[n / 2..]].iter().cloned(), w), false, l);
+            run("OwnedRecord::write_wrap", &|o| owned.write_wrap(o, w), true, l);
+            run("RefRecord::write_wrap", &|o| {
+                let mut rdr = fasta::Reader::new(&input[..]);
+                let rec = rdr.next().unwrap().unwrap();
+                rec.write_wrap(o, w)
+            }, true, l);
+        });
+        println!("  enormous widths: {} cases, {:.1}s", t_w.evals, t_w.wall_s);
+        tot.merge(t_w);
+    }
     // long sequences: lengths around 256 / 512 and beyond, chunk boundaries and widths at and around
     // these sizes (a menu of cut points instead of all compositions), through the chunk-taking entry
     // points and through records parsed from input laid out with the same line lengths
@@ -414,7 +465,7 @@ pub fn c10(tier: Tier) -> i32 {
         Report {
             property: "C10".into(),
             tier: tier.name().into(),
-            rule: format!("sequences = first n positional letters, n = 0..{}; every wrap width 1..n+2; {} headers (fixed menu: empty, spaces leading/trailing/multiple, '>' inside, non-UTF-8, CR inside / leading; plus ALL headers of <= 3 bytes over {{space, TAB, CR, letter, non-UTF-8 byte, '>', '@', '+'}} not ending in CR); entry points write_to, write_parts, write_wrap, write_head, write_id_desc, write_seq, write_wrap_seq, write_seq_iter, write_wrap_seq_iter, OwnedRecord::{{write,write_wrap}}, RefRecord::{{write,write_wrap}} (RefRecord parsed from every line splitting of the sequence, LF and CRLF); ALL 2^(n-1) compositions of the sequence into chunks, each also with 1-2 empty chunks inserted at every position; oracle: output parses back (reference parser and real reader) to (header, sequence), 2-3 records back to back parse to the list, wrapped lines <= width and all but the last = width, chunked output = whole output byte for byte (n >= 1); every call repeated into a writer that accepts only 1 or 3 bytes per write(): same bytes; PLUS long sequences (lengths 255, 256, 257, 300, 513, 700, 4097, 8193, 20011; thorough up to 140 003) with a menu of cut points at and around 64/256/512/4096/8192 (all 2- and 3-part splits over the menu, an empty chunk, regular lines of 60/70/80/256) and widths 1, 60, 70, 255-257, n-1..n+1: write_seq_iter / write_wrap_seq_iter = whole-sequence output, RefRecord::write of the record parsed from input with these line lengths (LF/CRLF, from next() and from a record set) parses back", maxn, heads_v.len()),
+            rule: format!("sequences = first n positional letters, n = 0..{}; every wrap width 1..n+2; {} headers (fixed menu: empty, spaces leading/trailing/multiple, '>' inside, non-UTF-8, CR inside / leading; plus ALL headers of <= 3 bytes over {{space, TAB, CR, letter, non-UTF-8 byte, '>', '@', '+'}} not ending in CR); entry points write_to, write_parts, write_wrap, write_head, write_id_desc, write_seq, write_wrap_seq, write_seq_iter, write_wrap_seq_iter, OwnedRecord::{{write,write_wrap}}, RefRecord::{{write,write_wrap}} (RefRecord parsed from every line splitting of the sequence, LF and CRLF); ALL 2^(n-1) compositions of the sequence into chunks, each also with 1-2 empty chunks inserted at every position; oracle: output parses back (reference parser and real reader) to (header, sequence), 2-3 records back to back parse to the list, wrapped lines <= width and all but the last = width, chunked output = whole output byte for byte (n >= 1); every call repeated into a writer that accepts only 1 or 3 bytes per write(): same bytes; widths usize::MAX, usize::MAX-1, usize::MAX/2+1, 2^63, 2^32+1 through every width-taking entry point (one line, no overflow); PLUS long sequences (lengths 255, 256, 257, 300, 513, 700, 4097, 8193, 20011; thorough up to 140 003) with a menu of cut points at and around 64/256/512/4096/8192 (all 2- and 3-part splits over the menu, an empty chunk, regular lines of 60/70/80/256) and widths 1, 60, 70, 255-257, n-1..n+1: write_seq_iter / write_wrap_seq_iter = whole-sequence output, RefRecord::write of the record parsed from input with these line lengths (LF/CRLF, from next() and from a record set) parses back", maxn, heads_v.len()),
             exhaustive: true,
             assumptions: vec!["sequence bytes are positional letters, plus a menu of 10 sequences of special bytes (blank, TAB, form feed, NUL, 0xff) through every entry point".into()],
             extra: json!({"states_note": "states = (sequence length, width, header, entry point, chunking) cases; transitions = writer calls"}),
